@@ -498,6 +498,20 @@ def run(ctx: Ctx) -> None:
                        f"{len(tx_rows)} histories of transmits and silences: the window count / the rate to 0.01 per minute agree")
     elif not built:
         ctx.obligation("correspondence:tx-rate", False, "correspondence", "model not built")
+    # "still able to send", and the views afterwards: a zone fetches its schedule (the change counter is asked for, the fragments are read) through a
+    # scripted controller whose replies come back to the caller -- with and without also being heard by the entities; every view is read at once
+    from . import c18 as _c18  # noqa: PLC0415
+    for dispatch in (False, True):
+        for steps in ([("fetch", 0, 30)], [("fetch", 0, 30), ("bump", 0), ("probe", 0, 400)], [("fetch", 1, 30), ("set", 1, 30)]):
+            try:
+                o = _c18.episode({"seed": 7, "plan": {}, "steps": steps, "dispatch": dispatch})
+            except Exception as err:  # noqa: BLE001
+                ctx.violation(f"harness:schedule-episode-raises:{type(err).__name__}", str(err)[:200], {"steps": steps}, "history")
+                continue
+            ctx.case(("views-after-transfers", dispatch, repr(steps)), True, "views:after-schedule-transfers")
+            for ent, view, exc_name, text, where in o.get("views_bad", []):
+                ctx.violation(f"view-raises-after-a-schedule-transfer:{view}:{exc_name}:{where}", f"after {steps} (replies {'also heard by the entities' if dispatch else 'handed to the caller only'}) "
+                              f"{ent}.{view} raises {exc_name}: {text}", {"steps": steps, "replies_dispatched": dispatch, "entity": ent, "view": view}, "history")
     # foreign traffic
     n_for = 60 if thorough else 12
     for i in range(n_for):
